@@ -94,7 +94,9 @@ fn res_bits_eq(a: &Res, b: &Res) -> bool {
 // (a) clone at every prefix -------------------------------------------------------------------
 fn clone_everywhere(rep: &mut Report, p: &Params, bars: bool, seed: u64) {
     let n = p.max_period();
-    let len = 3 * n + 3 + (seed % 3) as usize;
+    // at least 24 inputs: period-less indicators (OBV, TR) and period 1..7 need room for state to build up
+    // between the two resets below (a running sum whose low-order part a copy might drop, for one)
+    let len = (3 * n + 3).max(24) + (seed % 3) as usize;
     let mut s = stream(bars, len, seed);
     let mut d = stream(bars, len, seed ^ 0xD15707B);
     // both streams contain reset() calls: a clone taken right before one shares whatever the implementation
